@@ -31,6 +31,7 @@ def generate(rng, tier):
     cfg['n_modules'] = (1, 2)
     cfg['n_funcs'] = (1, 2)
     cfg['max_steps'] = rng.choice([3, 5, 7])
+    cfg['forms'] = list(gen.SIMPLE_FORMS) + ['withswap', 'writeout']
     world = gen.gen_world(rng, cfg)
     ids = gen.doctest_ids(world)
     mods = [m['relpath'] for m in world['modules']]
@@ -46,8 +47,12 @@ def generate(rng, tier):
         elif r < 0.75:
             ops.append({'op': 'runner', 'target': rng.choice(mods), 'command': 'all',
                         'verbose': rng.choice([0, 1, 2, 3])})
-        elif r < 0.9:
+        elif r < 0.86:
             ops.append({'op': 'import_by_path', 'module': rng.choice(mods), 'index': rng.choice([-1, 0])})
+        elif r < 0.9:
+            ops.append({'op': 'import_zip', 'inner': rng.choice(['folder/zmod.py', 'folder/zmod.py', 'ztop.py']),
+                        'sep': rng.choice(['/', ':']), 'fail': rng.random() < 0.4,
+                        'exc': rng.choice(['ValueError', 'ImportError', 'KeyboardInterrupt'])})
         else:
             ops.append({'op': 'cli', 'argv': ['PATH:' + rng.choice(mods), 'all', '--verbose=%d' % rng.choice([0, 1, 3])]})
     if rng.random() < 0.08:
@@ -55,6 +60,18 @@ def generate(rng, tier):
             if op['op'] == 'run_obj':
                 op['in_loop'] = True
                 break
+    if rng.random() < 0.2:
+        # the caller redirects sys.stdout between two operations (then the same objects run again)
+        pos = rng.randint(1, len(ops))
+        again = [dict(o) for o in ops[:pos] if o['op'] == 'run_obj'][:2]
+        for o in again:
+            o['fresh'] = False
+        ops[pos:pos] = [{'op': 'redirect'}] + again
+    colored = rng.random() < 0.25
+    if colored:
+        for op in ops:
+            if op['op'] in ('run_obj', 'runner'):
+                op.setdefault('config', {})['colored'] = True
     ops.append({'op': 'probe'})
     plan = []
     execs = common.predicted_execs(world, ops)
